@@ -629,6 +629,17 @@ func uniq(s []string) []string {
 }
 
 // BaseKey strips the "#n" ordinal from an obligation key.
+// ConstructKey is an obligation key without its build-configuration suffix:
+// rule, function and construct ("C13.T8@cache.Trim#all-subdirs"). Known
+// findings are matched on it, so that another construct violating the same rule
+// in the same function is still reported.
+func ConstructKey(k string) string {
+	if i := strings.LastIndex(k, "%"); i >= 0 {
+		k = k[:i]
+	}
+	return k
+}
+
 func BaseKey(k string) string {
 	if i := strings.LastIndex(k, "%"); i >= 0 {
 		k = k[:i]
@@ -659,7 +670,7 @@ func (r *Result) Report(verifDir string, ff *FindingsFile, seed int) int {
 		}
 		switch o.Status {
 		case Violated:
-			if f, ok := known[BaseKey(o.Key)]; ok {
+			if f, ok := known[ConstructKey(o.Key)]; ok {
 				o.Known = true
 				if !printedKnown[f.Key] {
 					printedKnown[f.Key] = true
